@@ -26,6 +26,21 @@ register("C10",
          "Trusted: Coq kernel; fail-closed py2v translator (validated each run); extraction (ExtrOcamlBasic, ExtrOcamlString) + graph_driver.ml; the hand-written Model/Graph.v is modelled-not-verified and tied by differential testing. Hypothesis: model names distinct. No axioms.",
          "Coq proof (BFS invariant, adjacency symmetry) over hand-written model + translator-regenerated key functions; correspondence via extraction", "DESIGN.md section 6/C10")
 
+register("C16",
+         "Machine-checked Coq theorems about Parameter.format_value as translated from parameter.py on every run: for EVERY string/date value the result is exactly one SQL string literal whose decoded content is the value, in any context (C16_string, C16_date); "
+         "accepted numbers are numeric literals and NaN/inf are rejected (C16_number); unquoted values consist of identifier characters; yesno is TRUE/FALSE. "
+         "The translated function is evaluated inside Coq against the real one on a hostile corpus; the implementation's output is tokenised by sqlglot, executed by DuckDB and compared as a tree through compile(). "
+         "Partial for interpolate()/Jinja/relative-date/dialects: those are exercised end to end only; 4 narrow known-finding classes are listed.",
+         "Trusted: Coq kernel; gen_params translator (validated each run); oracles z_repr/float_parse/isalnum_char as Section variables with the stated premises; hand-written SQL lexer (Model/SqlLex.v) tied to sqlglot/DuckDB by correspondence. No axioms.",
+         "Coq proof over translator-regenerated format_value + lexer model; differential test vs sqlglot/DuckDB", "DESIGN.md section 6/C16")
+
+register("C19",
+         "Machine-checked Coq theorem C19_safe: for the shared-state access skeleton extracted from semantic_graph.py on this run (obligation C19_prog: it equals the build-locally/publish-once/snapshot-once program), "
+         "ANY number of threads under ANY schedule only ever read the serial adjacency. Tied to the code by regeneration of the skeleton and by driving 2-3 real threads through line-granular schedules (sys.settrace) that must return serial results. "
+         "Partial: covers the planning state named in the property; the CPython scheduler, DuckDB connections and the server thread pool are not modelled.",
+         "Trusted: Coq kernel; gen_adjprog skeleton extractor (fail-closed) trusted to list every access to _adjacency/_adjacency_dirty; Model/Conc.v interleaving semantics (atomic line-level actions under the GIL); harness/sched.py. No axioms.",
+         "Coq invariant proof over all schedules for the regenerated access skeleton; deterministic schedule replay on real threads", "DESIGN.md section 6/C19")
+
 PENDING = "check not built yet in this revision (see DESIGN.md section 10 build order)"
 
 
